@@ -37,9 +37,81 @@ pub struct Second {
     pub epochs: i32,
 }
 
+#[derive(Clone)]
 pub struct Trained {
     pub train_loss: Vec<f32>,
     pub params: Vec<Vec<f32>>,
+}
+
+/// Association of the per-group gradient sum in the reference trainer. The property says
+/// "the sum of the per-sample gradients" and fixes no association; `Forward` is what the
+/// verdict is computed with, the other two are *conditioning probes*: when they lead the
+/// reference itself to a different result, the trajectory amplifies last-bit differences
+/// (sign-like Adam steps with beta2 = 0 or epsilon = 0, a cancelling centred variance, ...)
+/// and no implementation can be told from a re-associated one there.
+#[derive(Clone, Copy, PartialEq, Debug)]
+pub enum SumOrder {
+    Forward,
+    Reverse,
+    Pairwise,
+}
+
+thread_local! {
+    static SUM_ORDER: std::cell::Cell<SumOrder> = std::cell::Cell::new(SumOrder::Forward);
+}
+
+pub fn with_sum_order<T>(order: SumOrder, f: impl FnOnce() -> T) -> T {
+    SUM_ORDER.with(|c| c.set(order));
+    let r = std::panic::catch_unwind(std::panic::AssertUnwindSafe(f));
+    SUM_ORDER.with(|c| c.set(SumOrder::Forward));
+    match r {
+        Ok(v) => v,
+        Err(p) => std::panic::resume_unwind(p),
+    }
+}
+
+type Grads = (Vec<tensor::Tensor>, Vec<Option<tensor::Tensor>>);
+
+fn add_grads(into: &mut Grads, from: &Grads) {
+    for (s, g) in into.0.iter_mut().zip(from.0.iter()) {
+        add_tensor(s, g);
+    }
+    for (s, g) in into.1.iter_mut().zip(from.1.iter()) {
+        if let (Some(s), Some(g)) = (s.as_mut(), g.as_ref()) {
+            add_tensor(s, g);
+        }
+    }
+}
+
+fn sum_grads(mut all: Vec<Grads>, order: SumOrder) -> Grads {
+    match order {
+        SumOrder::Forward => {
+            let mut it = all.into_iter();
+            let mut acc = it.next().unwrap_or_default();
+            for g in it {
+                add_grads(&mut acc, &g);
+            }
+            acc
+        }
+        SumOrder::Reverse => {
+            all.reverse();
+            sum_grads(all, SumOrder::Forward)
+        }
+        SumOrder::Pairwise => {
+            while all.len() > 1 {
+                let mut next = Vec::with_capacity((all.len() + 1) / 2);
+                let mut it = all.into_iter();
+                while let Some(mut a) = it.next() {
+                    if let Some(b) = it.next() {
+                        add_grads(&mut a, &b);
+                    }
+                    next.push(a);
+                }
+                all = next;
+            }
+            all.pop().unwrap_or_default()
+        }
+    }
 }
 
 fn set_training(net: &mut neurons::network::Network, on: bool) {
@@ -67,8 +139,7 @@ pub fn reference_epochs(
         let mut start = 0usize;
         while start < xs.len() {
             let end = (start + batch).min(xs.len());
-            let mut sum_w: Vec<tensor::Tensor> = Vec::new();
-            let mut sum_b: Vec<Option<tensor::Tensor>> = Vec::new();
+            let mut all: Vec<Grads> = Vec::new();
             let mut losses: Vec<f32> = Vec::new();
             for i in start..end {
                 let (pre, post, max, fbs) = net.forward(&xs[i]);
@@ -76,22 +147,10 @@ pub fn reference_epochs(
                 if loss.is_nan() {
                     panic!("Loss is NaN. Aborting.");
                 }
-                let (wg, bg) = net.verif_backward(gradient, &pre, &post, &max, fbs);
+                all.push(net.verif_backward(gradient, &pre, &post, &max, fbs));
                 losses.push(loss);
-                if sum_w.is_empty() {
-                    sum_w = wg;
-                    sum_b = bg;
-                } else {
-                    for (s, g) in sum_w.iter_mut().zip(wg.iter()) {
-                        add_tensor(s, g);
-                    }
-                    for (s, g) in sum_b.iter_mut().zip(bg.iter()) {
-                        if let (Some(s), Some(g)) = (s.as_mut(), g.as_ref()) {
-                            add_tensor(s, g);
-                        }
-                    }
-                }
             }
+            let (sum_w, sum_b) = sum_grads(all, SUM_ORDER.with(|c| c.get()));
             loss_epoch += losses.iter().sum::<f32>() / losses.len() as f32;
             groups += 1;
             net.verif_update(epoch, sum_w, sum_b);
@@ -155,6 +214,36 @@ pub fn close(a: f32, b: f32, rel: f32) -> bool {
     (a - b).abs() <= rel * (1.0 + a.abs().max(b.abs()))
 }
 
+/// Do the conditioning probes lead the *reference* to the same result (same panic status,
+/// losses and parameters within a tenth of the verdict's tolerances)?
+fn well_conditioned(case: &Case, ref_env: &Env, forward: &Result<Trained, String>) -> bool {
+    for order in [SumOrder::Reverse, SumOrder::Pairwise] {
+        let (probe, _) = run_env(ref_env, |_| {
+            with_sum_order(order, || match &case.second {
+                Some(second) => reference_two_calls(&case.sc, second),
+                None => reference_trainer(&case.sc, case.sc.epochs),
+            })
+        });
+        match (forward, &probe) {
+            (Ok(a), Ok(b)) => {
+                if a.train_loss.len() != b.train_loss.len()
+                    || a.train_loss.iter().zip(b.train_loss.iter()).any(|(x, y)| !close(*x, *y, 1e-6))
+                    || a.params.iter().zip(b.params.iter()).any(|(x, y)| x.iter().zip(y.iter()).any(|(u, v)| !close(*u, *v, 1e-5)))
+                {
+                    return false;
+                }
+            }
+            (Err(a), Err(b)) => {
+                if panic_class(a) != panic_class(b) {
+                    return false;
+                }
+            }
+            _ => return false,
+        }
+    }
+    true
+}
+
 impl Property for C04 {
     type Case = Case;
 
@@ -170,6 +259,7 @@ impl Property for C04 {
         vec![
             "the reference trainer reuses the library's forward, backward, objective and optimizer step (C04 decides the orchestration, not those); the gradient sum is the harness's own code, not Tensor::add_inplace".into(),
             "agreement is judged with |d| <= 1e-4 (1+|w|) on parameters and 1e-5 relative on losses; bitwise agreement is counted separately".into(),
+            "the property fixes no association of the gradient sum: before a mismatch is reported the reference trainer is re-run with the sum reversed and pairwise; if its own result moves by more than a tenth of those tolerances the case is ill-conditioned (last-bit differences are amplified) and not judged".into(),
             "E1 scheduling limits as for C05".into(),
         ]
     }
@@ -228,6 +318,16 @@ impl Property for C04 {
             "optimizer": case.sc.net.optimizer.as_ref().map(|o| o.kind()).unwrap_or("default"),
             "with_validation": case.sc.val.is_some(),
         });
+        // every verdict below is subject to the conditioning probes
+        let forward = expected.clone();
+        let ill = |stats: &mut Stats| -> Option<Outcome> {
+            if well_conditioned(case, &ref_env, &forward) {
+                None
+            } else {
+                stats.probe("ill_conditioned_skipped", true);
+                Some(Outcome::Degenerate("ill-conditioned: the reference trainer's own result depends on the association of the gradient sum".into()))
+            }
+        };
         let (expected, got) = match (expected, got) {
             (Err(e), Err(g)) => {
                 return if panic_class(&e) == panic_class(&g) {
@@ -251,6 +351,9 @@ impl Property for C04 {
                         return Outcome::Degenerate(format!("the per-epoch validation panics: {}", panic_class(&g)));
                     }
                 }
+                if let Some(o) = ill(stats) {
+                    return o;
+                }
                 return Outcome::Violation(Violation {
                     class: "learn_panics".into(),
                     detail: format!("reference trainer completes but learn() panics: {} [{}]", panic_class(&g), g.lines().last().unwrap_or("")),
@@ -258,6 +361,9 @@ impl Property for C04 {
                 })
             }
             (Err(e), Ok(_)) => {
+                if let Some(o) = ill(stats) {
+                    return o;
+                }
                 return Outcome::Violation(Violation {
                     class: "reference_panics".into(),
                     detail: format!("learn() completes but the reference trainer panics: {}", panic_class(&e)),
@@ -275,6 +381,9 @@ impl Property for C04 {
         }
         for (i, (e, g)) in expected.train_loss.iter().zip(got.train_loss.iter()).enumerate() {
             if !close(*e, *g, 1e-5) {
+                if let Some(o) = ill(stats) {
+                    return o;
+                }
                 return Outcome::Violation(Violation {
                     class: "train_loss_differs".into(),
                     detail: format!("epoch {}: learn reports {:e}, reference {:e}", i + 1, g, e),
@@ -292,6 +401,9 @@ impl Property for C04 {
                     bitwise = false;
                 }
                 if !close(*a, *b, 1e-4) {
+                    if let Some(o) = ill(stats) {
+                        return o;
+                    }
                     return Outcome::Violation(Violation {
                         class: "parameters_differ".into(),
                         detail: format!("parameter tensor {} element {}: learn {:e}, reference {:e}", t, j, b, a),
